@@ -68,14 +68,25 @@ class C17:
         cases = []
         for _ in range(900 if tier == "thorough" else 200):
             def envs():
-                return {rng.choice(KEYS): rng.choice(VALS) for _ in range(rng.randint(0, 3))}
+                """a history of env()/envs() calls with overlapping keys and the environment it configures"""
+                calls = []
+                for _ in range(rng.randint(0, 3)):
+                    pairs = [[rng.choice(KEYS), rng.choice(VALS)] for _ in range(rng.randint(1, 3))]
+                    calls.append({"via": rng.choice(["env", "envs"]), "pairs": pairs})
+                final = {}
+                for call in calls:
+                    for k, v in call["pairs"]:
+                        final[k] = v
+                return final, calls
+            benv, benv_calls = envs()
+            cenv, cenv_calls = envs()
             c = {
                 "builder": rng.choice(BUILDERS), "app_dir": rng.choice(APPDIRS),
-                "buildpacks": [rng.choice(BPS) for _ in range(rng.randint(0, 3))], "benv": envs(),
+                "buildpacks": [rng.choice(BPS) for _ in range(rng.randint(0, 3))], "benv": benv, "benv_calls": benv_calls,
                 "pre": rng.random() < 0.4,
                 "entrypoint": rng.choice([None] + VALS) if rng.random() < 0.7 else None,
                 "command": None if rng.random() < 0.3 else [rng.choice(VALS) for _ in range(rng.randint(0, 3))],
-                "cenv": envs(), "ports": sorted(set(rng.choice(PORTS) for _ in range(rng.randint(0, 3)))),
+                "cenv": cenv, "cenv_calls": cenv_calls, "ports": sorted(set(rng.choice(PORTS) for _ in range(rng.randint(0, 3)))),
                 "mounts": {rng.choice(MPATHS): rng.choice(MPATHS) for _ in range(rng.randint(0, 2))},
             }
             cases.append(c)
@@ -85,10 +96,14 @@ class C17:
         def b(x):
             return list(x.encode())
         cfg = {"builder": b(c["builder"]), "app_dir": b(c["app_dir"]), "buildpacks": [b(x) for x in c["buildpacks"]],
-               "env": [[b(k), b(v)] for k, v in c["benv"].items()], "expected": "success", "pre": "touch" if c["pre"] else None}
+               "env": [] if "benv_calls" in c else [[b(k), b(v)] for k, v in c["benv"].items()],
+               "env_calls": [{"via": x["via"], "pairs": [[b(k), b(v)] for k, v in x["pairs"]]} for x in c.get("benv_calls", [])],
+               "expected": "success", "pre": "touch" if c["pre"] else None}
         ccfg = {"entrypoint": None if c["entrypoint"] is None else b(c["entrypoint"]),
                 "command": None if c["command"] is None else [b(x) for x in c["command"]],
-                "env": [[b(k), b(v)] for k, v in c["cenv"].items()], "ports": c["ports"],
+                "env": [] if "cenv_calls" in c else [[b(k), b(v)] for k, v in c["cenv"].items()],
+                "env_calls": [{"via": x["via"], "pairs": [[b(k), b(v)] for k, v in x["pairs"]]} for x in c.get("cenv_calls", [])],
+                "ports": c["ports"],
                 "mounts": [[b(k), b(v)] for k, v in c["mounts"].items()]}
         return {"id": c["id"], "build": cfg, "fail": [], "body": [{"op": "start", "cfg": ccfg, "body": []}]}
 
@@ -130,9 +145,17 @@ class C17:
             if c[k]:
                 for i in range(len(c[k])):
                     yield dict(c, **{k: c[k][:i] + c[k][i + 1:]})
-        for k in ("benv", "cenv", "mounts"):
-            for key in list(c[k]):
-                yield dict(c, **{k: {a: v for a, v in c[k].items() if a != key}})
+        for k in ("benv", "cenv"):
+            calls = c.get(k + "_calls", [])
+            for i in range(len(calls)):
+                rest = calls[:i] + calls[i + 1:]
+                final = {}
+                for call in rest:
+                    for kk, vv in call["pairs"]:
+                        final[kk] = vv
+                yield dict(c, **{k: final, k + "_calls": rest})
+        for key in list(c["mounts"]):
+            yield dict(c, mounts={a: v for a, v in c["mounts"].items() if a != key})
         if c["ports"]:
             yield dict(c, ports=c["ports"][1:])
         if c["entrypoint"] is not None:
@@ -152,9 +175,13 @@ class C17:
         return "status=%s log=%s" % (o["status"], [[e["prog"]] + [bytes(a).decode("utf-8", "replace") for a in e["argv"]] for e in o["log"]])
 
     def distribution(self, cases, obs):
-        d = {"pre": 0, "abs_app_dir": 0, "entrypoint": 0, "command": 0, "leading_dash_values": 0, "env_pairs": 0, "ports": 0, "mounts": 0, "buildpacks": 0}
+        d = {"pre": 0, "env_keys_set_twice": 0, "envs_calls": 0, "abs_app_dir": 0, "entrypoint": 0, "command": 0, "leading_dash_values": 0, "env_pairs": 0, "ports": 0, "mounts": 0, "buildpacks": 0}
         for c in cases:
             d["pre"] += c["pre"]
+            for k in ("benv_calls", "cenv_calls"):
+                keys = [kk for call in c.get(k, []) for kk, _ in call["pairs"]]
+                d["env_keys_set_twice"] += len(keys) - len(set(keys))
+                d["envs_calls"] += sum(1 for call in c.get(k, []) if call["via"] == "envs")
             d["abs_app_dir"] += c["app_dir"].startswith("$ABS")
             d["app_dir_below_tmp"] = d.get("app_dir_below_tmp", 0) + c["app_dir"].startswith("$TMP")
             d["entrypoint"] += c["entrypoint"] is not None
